@@ -753,6 +753,11 @@ class Domain:
                 args, kwargs = eng.eval_args(e, st)
                 return self.lib_call(eng, e, name, args, kwargs, st)
             recv = eng.ev(f.value, st)
+            r0 = recv.val if isinstance(recv, Opt) else recv
+            if isinstance(r0, Ref) and f.attr not in self.repo.classes.get(r0.cls, {}) and \
+                    ((r0.oid, f.attr) in st.heap or (r0.cls, f.attr) in self.field_shapes):
+                # a field that holds a callable (self.h, self.objfun, self.prox_uh)
+                return self.call_value(eng, self.load_attr(eng, r0, f.attr, st, f), e, st, name)
             return self.call_method(eng, recv, f.attr, e, st)
         fv = eng.ev(f, st)
         return self.call_value(eng, fv, e, st, name)
